@@ -5,9 +5,12 @@ import (
 	"crypto/sha256"
 	"encoding/base64"
 	"fmt"
+	"github.com/buzzfeed/sso/internal/pkg/groups"
 	"io/ioutil"
 	"net/http"
 	"net/url"
+	"strings"
+	"sync"
 	"time"
 
 	"github.com/buzzfeed/sso/internal/auth"
@@ -49,6 +52,7 @@ type Auth struct {
 	Slug       string
 	Inner      providers.Provider    // the concrete provider (GoogleProvider / OktaProvider)
 	GroupCache *providers.GroupCache // the answer cache in front of it (okta), nil otherwise
+	CacheKeys  *KeyRecorder          // the keys that cache's store has been given (whatever their encoding)
 }
 
 // AuthCodeSecret is the default key sealing authorization codes.
@@ -148,6 +152,8 @@ func NewAuth(o AuthOpts, idp *FakeIdP) (*Auth, error) {
 			inner = p.VerifInner()
 		case *providers.GroupCache:
 			a.GroupCache = p
+			a.CacheKeys = &KeyRecorder{keys: map[groups.CacheKey]bool{}}
+			p.VerifWrapCache(func(c providers.Cache) providers.Cache { a.CacheKeys.Cache = c; return a.CacheKeys })
 			inner = p.VerifInner()
 		}
 	}
@@ -207,3 +213,49 @@ func Sign(secret, redirectURI string, ts int64) string {
 
 // Path prefixes an authenticator endpoint with the provider slug.
 func (a *Auth) Path(ep string) string { return "/" + a.Slug + "/" + ep }
+
+// KeyRecorder wraps a group cache's store and remembers the keys it was given, so that a harness can look an entry
+// up or let it expire without building a key by hand.
+type KeyRecorder struct {
+	providers.Cache
+	mu   sync.Mutex
+	keys map[groups.CacheKey]bool
+}
+
+// Set records the key.
+func (k *KeyRecorder) Set(key groups.CacheKey, val groups.CacheEntry) {
+	k.mu.Lock()
+	k.keys[key] = true
+	k.mu.Unlock()
+	k.Cache.Set(key, val)
+}
+
+// Purge forgets the key.
+func (k *KeyRecorder) Purge(key groups.CacheKey) {
+	k.mu.Lock()
+	delete(k.keys, key)
+	k.mu.Unlock()
+	k.Cache.Purge(key)
+}
+
+// Find returns the recorded key of this user whose group part mentions every one of the groups (and the hand-built
+// key of today's encoding when none was recorded).
+func (k *KeyRecorder) Find(email string, gs ...string) groups.CacheKey {
+	k.mu.Lock()
+	defer k.mu.Unlock()
+	for key := range k.keys {
+		if !strings.EqualFold(key.Email, email) {
+			continue
+		}
+		all := true
+		for _, g := range gs {
+			if !strings.Contains(key.AllowedGroups, g) {
+				all = false
+			}
+		}
+		if all {
+			return key
+		}
+	}
+	return groups.CacheKey{Email: email, AllowedGroups: strings.Join(gs, ",")}
+}
